@@ -243,8 +243,41 @@ def clause_scale(repo, chk):
         chk.violation("E-scale", fs.key, "undo", "fit_scipy no longer divides the minimiser's objective value by grad_scale: min_nll is grad_scale times the NLL", file="tf_pwa/fit.py", line=fs.lineno)
 
 
+def clause_dic(repo, chk):
+    """the parameter dictionary of a fit result holds model (physical) values, also while ranges are registered"""
+    import sympy as sp
+
+    from ..sym import SelfObj, Translator, Unmodelled
+    VARF = "tf_pwa/variable.py"
+    vmc = repo.cls(VARF + "::VarsManager")
+    bcls = repo.cls(VARF + "::Bound")
+    chk.rule("E-dic", "VarsManager.get_all_dic interpreted on a manager with a trainable variable that carries a range (the state in which fit_newton_cg / the early exits build the FitResult), a trainable free one and a fixed one: every listed value is the model value of that variable - never the fit coordinate - and the listed names are the trainable ones (trainable_only) or all of them")
+    fn = vmc.methods.get("get_all_dic")
+    if fn is None:
+        raise AnalysisError("anchor vanished: VarsManager.get_all_dic")
+    a, b, c = sp.symbols("theta_a theta_b theta_c", real=True)
+    fit = sp.Function("fit_coordinate")
+    hooks = {"allow_attr_store": True}
+    for nm_ in ("get_y2x",):
+        if nm_ in bcls.methods:
+            hooks[bcls.methods[nm_].key] = lambda tr_, args, kwargs, node: fit(sp.sympify(args[-1]))
+    for flag in (True, False):
+        vm = SelfObj(vmc, {"variables": {"a": a, "b": b, "c": c}, "trainable_vars": ["a", "c"], "bnd_dic": {"a": SelfObj(bcls, {})}, "pre_trans": {}, "mask_vars": {}, "complex_vars": {}, "same_list": []})
+        tr = Translator(repo, hooks=hooks, max_depth=3)
+        try:
+            out = tr.call_fn(fn, [], {"trainable_only": flag}, self_obj=vm)
+        except Unmodelled as e:
+            raise AnalysisError("VarsManager.get_all_dic cannot be interpreted: %s" % e)
+        want = {"a": a, "c": c} if flag else {"a": a, "b": b, "c": c}
+        ok = isinstance(out, dict) and set(out) == set(want) and all(sp.simplify(sp.sympify(out[k]) - want[k]) == 0 for k in want)
+        chk.oblige("E-dic", "get_all_dic(trainable_only=%s) == model values of %s (a carries a range)" % (flag, sorted(want)), ok)
+        if not ok:
+            chk.violation("E-dic", fn.key, "dic:%s" % flag, "get_all_dic(trainable_only=%s) returns %s on a manager whose variable a carries a range; the model values are %s: a FitResult built while the ranges are registered (Newton-CG / trust-*, early exits) lists a coordinate the model does not hold" % (flag, out, want), file=VARF, line=fn.lineno)
+
+
 def run(repo, chk, tier):
     clause_scale(repo, chk)
+    clause_dic(repo, chk)
     res = Resolver(repo)
     eff = Effects(repo, res)
     clause_a(repo, chk, res)
